@@ -135,9 +135,12 @@ def returns_rule(ctx, report):
             somes = 0
             for bb, idx, e, node in ret_exprs(an):
                 es = strip(e)
-                if not (es.k == "agg" and es.a[0].endswith("Result::Ok")):
+                if es.k == "call" and es.a[0].name == "map" and (es.a[0].fn or "").startswith("std::result::Result") and len(es.a[1]) == 2:
+                    v = es  # `self.insert(..).map(|prev| prev.and_then(decode))`: the Ok payload is the closure's result
+                elif not (es.k == "agg" and es.a[0].endswith("Result::Ok")):
                     continue
-                v = strip(es.a[1]["0"])
+                else:
+                    v = strip(es.a[1]["0"])
                 if v.k == "agg" and v.a[0].endswith("Option::None"):
                     continue
                 # some decoder applied to the Some payload of the insert result
@@ -157,6 +160,14 @@ def returns_rule(ctx, report):
                                 for c2 in bexp.walk():
                                     if c2.k == "call" and c2.a[0].name == "decode" and (c2.a[0].trait or "").endswith("Decodable"):
                                         decs.append(c2)
+                                    # a private decoding helper passed by name: `prev.and_then(decode_previous_port)`
+                                    if c2.k == "const" and isinstance(c2.a[0], tuple) and c2.a[0][0] == "fn":
+                                        hf = ctx.facts.fn(c2.a[0][1])
+                                        if hf is not None and hf.vis != "pub":
+                                            for _bb, _i, he, _n in ret_exprs(ctx.an(hf)):
+                                                for c3 in he.walk():
+                                                    if c3.k == "call" and c3.a[0].name == "decode" and (c3.a[0].trait or "").endswith("Decodable"):
+                                                        decs.append(c3)
                 if decs and prev:
                     cls = rlpclass.consumer_class_from_callee(decs[0].a[0]) if hasattr(rlpclass, "consumer_class_from_callee") else rlpclass.class_of_type(decs[0].a[0].self_ty["s"])
                     want = rows[0][2] if len(rows) == 1 else None
